@@ -20,6 +20,8 @@ ONLY = None   # optional family filter (development / targeted runs): set of fam
 
 
 def _enabled(f, tier):
+    if f.internal:
+        return False
     if ONLY is not None:
         return f.name in ONLY
     return not (f.cost == "heavy" and tier != "thorough")
@@ -57,7 +59,8 @@ class Gen(object):
 
     # -- helpers ------------------------------------------------------------------------------
     def pick_class(self, fam):
-        quals = ["exactpack.solvers." + c for c in fam.classes if "exactpack.solvers." + c in self.census]
+        quals = ["exactpack.solvers." + c for c in fam.classes if "exactpack.solvers." + c in self.census] \
+            or [c for c in fam.classes if c in self.census]
         rng = self.rng
         # bias towards the base (first) class so that parameter sets vary
         q = quals[0] if rng.random() < 0.6 else rng.choice(quals)
@@ -456,3 +459,153 @@ def resolve_faults(spec, profile):
         elif it["kind"] == "devnull":
             faults.append({"step": i, "kind": "devnull"})
     return faults
+
+
+# ---------------------------------------------------------------------------------------------
+# C05: conformance client walking the census, interleaved with background clients
+# ---------------------------------------------------------------------------------------------
+STREAM_PLANS = [
+    {"fail_open": True, "errno": "EMFILE"}, {"fail_open": True, "errno": "ENOSPC"}, {"fail_open": True, "errno": "EACCES"},
+    {"fail_at_byte": 0, "errno": "ENOSPC"}, {"fail_at_byte": 1, "errno": "ENOSPC"}, {"fail_at_byte": 17, "errno": "ENOSPC"},
+    {"fail_at_byte": 100, "errno": "ENOSPC"}, {"fail_at_byte": 1000, "errno": "ENOSPC"}, {"fail_at_byte": 5000, "errno": "EIO"},
+    {"fail_write_call": 1, "errno": "EIO"}, {"fail_write_call": 2, "errno": "EIO"}, {"fail_write_call": 5, "errno": "ENOSPC"},
+    {"fail_close": True, "errno": "EIO"}, {"fail_close": True, "errno": "ENOSPC"},
+    {"short": 1}, {"short": 7}, {"short": 7, "fail_at_byte": 200, "errno": "ENOSPC"}, {"short": 3, "fail_close": True, "errno": "EIO"},
+]
+PROBE_QUAL = "verif.probe.ProbeSolver"
+
+
+def missing_params(cls):
+    return [p for p in cls.parameters if not hasattr(cls, p)]
+
+
+def c05_census(tier):
+    out = []
+    for q in sorted(world.CENSUS):
+        if q == PROBE_QUAL:
+            continue
+        fam = T.family_of(q)
+        if fam is None or not _enabled(fam, tier):
+            continue
+        out.append(q)
+    return out
+
+
+def conformance(g, client, qual, rng, tier):
+    """Generator: appends the conformance script of one class visit to g.ops, yielding between operations."""
+    cls = world.CENSUS[qual]
+    fam, usable = T.pool_for(qual, cls)
+    if fam is None or not usable:
+        return
+    # I9: unknown keyword, then (where a parameter has no default) a constructor without it
+    st = g.new_op(client, fam, qual=qual, bad="unknown")
+    if st is not None:
+        g.ops[-1]["expect"] = "ValueError"
+    yield
+    miss = missing_params(cls)
+    if miss and fam.name != "blake":
+        pi, kw = usable[0]
+        kw = {k: v for k, v in kw.items() if k not in miss}
+        oid = "S%d" % (len(g.objs) + 1)
+        op = {"op": "new", "c": client, "obj": oid, "cls": qual, "kw": enc(kw), "fam": fam.name, "pi": pi, "expect": "ValueError"}
+        g.ops.append(op)
+        dead = ObjState(oid, qual, fam, pi, op, client)
+        dead.alive = False
+        g.objs.append(dead)
+        yield
+    st = g.new_op(client, fam, qual=qual, pi=rng.choice(usable)[0])
+    if st is None:
+        return
+    yield
+    fixed_n = getattr(fam.pool[st.pi].pts, "fixed_n", False)
+    n = rng.choice([1, 2, 3, 7, 40])
+    pts, thex, layout = g.request_points(st, n=n)
+    conts = list(containers_for(layout))
+    if pts.ndim < 2:
+        conts = [c for c in conts if c != "fortran"]
+    rng.shuffle(conts)
+    if "nd" in conts:   # the plain ndarray request first or last, never absent
+        conts.remove("nd")
+        conts.insert(rng.choice([0, len(conts)]), "nd")
+    calls = []
+    for cont in conts:
+        op = g.call_op(client, st, pts, thex, layout, cont=cont)
+        calls.append(op)
+        yield
+        r = rng.random()
+        if r < 0.5:
+            g.ops.append({"op": "dump", "c": client, "sol": op["sol"], "dev": "sim", "bufsize": rng.choice([1, 16, 64, 8192])})
+            yield
+        elif r < 0.62:
+            g.ops.append({"op": "dump", "c": client, "sol": op["sol"], "dev": "file"})
+            yield
+        elif r < 0.9:
+            g.ops.append({"op": "dump", "c": client, "sol": op["sol"], "dev": "sim", "bufsize": rng.choice([1, 16, 64, 8192]),
+                          "plan": enc(rng.choice(STREAM_PLANS))})
+            yield
+            g.ops.append({"op": "dump", "c": client, "sol": op["sol"], "dev": "sim", "bufsize": rng.choice([1, 16, 64, 8192])})
+            yield
+    # the owner scribbles on one of its inputs; the solution must stay what it was, and dump it again
+    victim = rng.choice(calls)
+    g.ops.append({"op": "scribble", "c": client, "target": victim["buf"], "mode": rng.choice(["junk", "nan", "zero"])})
+    yield
+    g.ops.append({"op": "dump", "c": client, "sol": victim["sol"], "dev": "sim", "bufsize": rng.choice([1, 64, 8192])})
+    yield
+    if not fixed_n:
+        n2 = rng.choice([x for x in [1, 2, 3, 7, 40] if x != n])
+        pts2, thex2, layout2 = g.request_points(st, n=n2)
+        g.call_op(client, st, pts2, thex2, layout2, cont="nd")
+        yield
+
+
+def make_c05_run(seed, tier, index):
+    world.load()
+    rng = random.Random(h64(seed, tier, index, "C05"))
+    census = c05_census(tier)
+    cfg = swarm_config(rng, tier, "C05")
+    cfg["p_dump"] = 0.12
+    cfg["length"] = rng.randint(0, 25)
+    n_visit = rng.choice([1, 2, 2, 3])
+    visits = [census[(index * 7 + j * 41) % len(census)] for j in range(n_visit)]
+    if index % 9 == 4 and PROBE_QUAL in world.CENSUS:
+        visits.append(PROBE_QUAL)
+    fams = tier_families(tier, "C05")
+    chosen = pick_families(rng, [f for f in fams if f.cost == "cheap" or rng.random() < 0.3], rng.choice([1, 2]), "C05")
+    g = Gen(rng, fams, cfg)
+    n_bg = rng.choice([0, 1, 1, 2])
+    scripts = {}
+    for j, q in enumerate(visits):
+        scripts[100 + j] = conformance(g, 100 + j, q, rng, tier)
+    bg_budget = cfg["length"]
+    guard = 0
+    while scripts and guard < 2000:
+        guard += 1
+        actors = sorted(scripts) + (list(range(n_bg)) if bg_budget > 0 else [])
+        c = rng.choice(actors)
+        if c >= 100:
+            try:
+                next(scripts[c])
+            except StopIteration:
+                del scripts[c]
+        else:
+            before = len(g.ops)
+            g.client_step(c, chosen)
+            bg_budget -= max(1, len(g.ops) - before)
+    run = {}
+    kinds = cfg["fault_kinds"]
+    if "alloc" in kinds:
+        run["alloc"] = fhex(rng.choice(ALLOC_PATTERNS[1:]))
+    if "nofile" in kinds:
+        run["nofile_extra"] = rng.randint(3, 8)
+    intents = []
+    for i, op in enumerate(g.ops):
+        if op["op"] not in ("new", "call", "cfg") or op.get("expect"):
+            continue
+        if rng.random() < cfg["fault_rate"] * 0.5:
+            cand = [k for k in kinds if k in ("dep", "abort", "devnull")]
+            if cand:
+                intents.append({"step": i, "kind": rng.choice(cand), "u": fhex(rng.random()), "mode": rng.choice(["before", "after"]),
+                                "exc": rng.choice(["RuntimeError", "ValueError"])})
+    return {"seed": seed, "tier": tier, "index": index, "prop": "C05", "kind": "swarm",
+            "config": {k: v for k, v in cfg.items() if k != "n_choices"}, "families": [f.name for f in chosen],
+            "visits": visits, "run": run, "ops": g.ops, "intents": intents, "faults": []}
